@@ -18,4 +18,4 @@ def classify(name, prog, res):
 
 def run(ctx):
     return mp.generic_run(ctx, {"functionsb": mp.on_case("functionsb"), "faithfulb": mp.on_case("faithfulb"),
-                                "must-reject": mp.on_prog_outcome("c11_must_reject")}, classify, level='translation_validation')
+                                "must-reject": mp.on_prog_outcome("c11_must_reject")}, classify, level='proof')
